@@ -462,7 +462,7 @@ def _wreplay(edge_ids):
         impl = WaiterImpl(_WT)
         try:
             hist = []
-            for pe_ in g.path_to(e["_s"]) + pre:
+            for pe_ in g.path_to(pre[0]["_s"] if pre else e["_s"]) + pre:
                 impl.step(pe_["act"])
                 hist.append(pe_["act"])
             got = impl.step(e["act"])
@@ -485,7 +485,7 @@ def _waiters(chk: Check, n, depth, label):
     chk.cov["tlc_runs"][-1]["invariants"] = WINV
     g = common.Graph(recs)
     _WG, _WT = g, 2
-    ids = g.reachable_edges() + g.selfloop_pairs()
+    ids = g.reachable_edges() + g.merge_pairs(6000 if chk.tier == 'quick' else 60000)
     results = common.parallel_map(_wreplay, common.chunked(ids, common.NCPU * 4))
     chk.count(len(ids))
     chk.cov["traces_validated_against_impl"] += len(ids)
